@@ -743,7 +743,11 @@ impl DnsListenerHandler {
             ) {
                 Ok(msg) => {
                     let in_reply = Self::recv_in_query(&q, &msg).await.unwrap();
-                    let in_reply_bytes = in_reply.serialise();
+                    /* Over UDP the reply must fit the size the client advertised (512 if it
+                     * did not use EDNS), if it does not it is truncated.
+                     */
+                    let in_reply_bytes =
+                        Self::prepare_to_send(&in_reply, msg.in_query.bufsize as usize);
                     if !Self::should_ratelimit(
                         &msg,
                         &in_reply,
@@ -830,8 +834,8 @@ impl DnsListenerHandler {
             ) {
                 Ok(msg) => {
                     let in_reply = Self::recv_in_query(&q, &msg).await.unwrap();
-                    let serialised =
-                        Self::prepare_to_send(&in_reply, msg.in_query.bufsize as usize);
+                    /* Over TCP the only limit is the 16 bit length prefix. */
+                    let serialised = Self::prepare_to_send(&in_reply, usize::from(u16::MAX));
                     let mut in_reply_bytes = Vec::with_capacity(2 + serialised.len());
                     in_reply_bytes.extend((serialised.len() as u16).to_be_bytes().iter());
                     in_reply_bytes.extend(serialised);
